@@ -178,6 +178,9 @@ def atoms_for(w, facts, t):
             elif is_call(x) and x[1].startswith("method:") and x[2] == (t,) and x[1][7:] in _STRPRED:
                 lang = SL.L_allchars(*_STRPRED[x[1][7:]])
                 atoms.append(lang if pos else notl(lang))
+            elif is_call(x, ("method:islower", "method:isupper")) and x[2] == (t,):
+                lang = SL.L_islower() if x[1].endswith("islower") else SL.L_isupper()
+                atoms.append(lang if pos else notl(lang))
             elif _lenmod(x, t):
                 lang = SL.L_len_mod(_lenmod(x, t), 0)
                 atoms.append(notl(lang) if pos else lang)
